@@ -20,12 +20,39 @@ pub struct LockstepLog {
     /// engines differing only where the contract declares the output garbage (informational)
     pub garbage_region_differences: u64,
     pub ifft_with_nonzero_tail: u64,
+    pub perturbed_calls: u64,
     /// distinct (primitive, log2 size, truncated class, skew class, blocks)
     pub tuples: BTreeSet<(u8, u8, u8, u8, u8)>,
 }
 
 thread_local! {
     static LOG: RefCell<LockstepLog> = RefCell::new(LockstepLog::default());
+    /// (seed, call counter) of the perturbed shadow calls; seed 0 = off
+    static PERTURB: std::cell::Cell<(u64, u64)> = const { std::cell::Cell::new((0, 0)) };
+}
+
+/// Arms the perturbed shadow calls for this run: next to every primitive call the codec issues, the
+/// lock-step engine sometimes issues the same primitive with *other arguments the Engine contract
+/// permits* (other skew offsets, truncated sizes, positions, multipliers) on private copies - a
+/// foreign caller of the public Engine API - and compares the engines there as well.
+pub fn set_perturb(seed: u64) {
+    PERTURB.with(|p| p.set((seed, 0)));
+}
+
+fn perturb_draw() -> Option<simcore::prng::Prng> {
+    PERTURB.with(|p| {
+        let (seed, n) = p.get();
+        if seed == 0 {
+            return None;
+        }
+        p.set((seed, n + 1));
+        let mut prng = simcore::prng::Prng::new(simcore::prng::mix(&[seed, n]));
+        if prng.below(3) == 0 {
+            Some(prng)
+        } else {
+            None
+        }
+    })
 }
 
 pub fn take_violations() -> Vec<String> {
@@ -160,6 +187,79 @@ impl Lockstep {
         for i in 0..count {
             data[i].copy_from_slice(&results[0][i * len64..(i + 1) * len64]);
         }
+
+        // perturbed shadow call: other contract-permitted arguments on the same data
+        if let Some(mut p) = perturb_draw() {
+            if size >= 2 && count >= size {
+                let size2 = 1usize << p.below(u64::from(size.trailing_zeros()) + 1);
+                let pos2 = p.below((count - size2) as u64 + 1) as usize;
+                let trunc2 = match p.below(4) {
+                    0 => size2,
+                    1 => 1,
+                    _ => 1 + p.below(size2 as u64) as usize,
+                };
+                let max_skew = 65535 - size2;
+                let skew2 = match p.below(5) {
+                    0 => 0,
+                    1 => pos2 + size2,
+                    2 => 1 + p.below(7) as usize,
+                    3 => (1usize << p.below(16)).min(max_skew),
+                    _ => p.below(max_skew as u64 + 1) as usize,
+                };
+                self.shadow_transform(prim, &snapshot, count, len64, pos2, size2, trunc2, skew2);
+            }
+        }
+    }
+
+    #[allow(clippy::too_many_arguments)]
+    fn shadow_transform(&self, prim: u8, snapshot: &[[u8; 64]], count: usize, len64: usize, pos: usize, size: usize, truncated_size: usize, skew_delta: usize) {
+        let name = if prim == 0 { "fft" } else { "ifft" };
+        let mut input = snapshot.to_vec();
+        if prim == 1 {
+            // an ifft is only defined if the inputs beyond truncated_size are zero
+            for c in &mut input[(pos + truncated_size) * len64..(pos + size) * len64] {
+                *c = [0; 64];
+            }
+        }
+        let mut results: Vec<Vec<[u8; 64]>> = Vec::with_capacity(5);
+        for engine in self.engines() {
+            let mut copy = input.clone();
+            {
+                let mut view = ShardsRefMut::new(count, len64, &mut copy);
+                if prim == 0 {
+                    engine.fft(&mut view, pos, size, truncated_size, skew_delta);
+                } else {
+                    engine.ifft(&mut view, pos, size, truncated_size, skew_delta);
+                }
+            }
+            results.push(copy);
+        }
+        let defined_end = if prim == 0 { pos + truncated_size } else { pos + size };
+        LOG.with(|l| {
+            let mut l = l.borrow_mut();
+            l.perturbed_calls += 1;
+            let sclass = if skew_delta == 0 { 0 } else if skew_delta == pos + size { 1 } else { 2 };
+            l.tuples.insert((prim + 4, size.trailing_zeros() as u8, if truncated_size == size { 0 } else { 3 }, sclass, len64.min(255) as u8));
+            for (n, res) in results.iter().enumerate().skip(1) {
+                if res[pos * len64..defined_end * len64] != results[0][pos * len64..defined_end * len64] {
+                    l.violations.push(format!(
+                        "{name}(pos={pos}, size={size}, truncated={truncated_size}, skew_delta={skew_delta}, shards={count}, blocks={len64}) [perturbed shadow call: arguments the Engine contract permits but no codec passes]: {} differs from {} inside the contract-defined output range",
+                        NAMES[n], NAMES[0]
+                    ));
+                }
+            }
+            for (n, res) in results.iter().enumerate() {
+                for i in (0..count).filter(|i| *i < pos || *i >= pos + size) {
+                    if res[i * len64..(i + 1) * len64] != input[i * len64..(i + 1) * len64] {
+                        l.violations.push(format!(
+                            "{name}(pos={pos}, size={size}, truncated={truncated_size}, skew_delta={skew_delta}, shards={count}) [perturbed shadow call]: {} changed shard {i} outside the transformed range",
+                            NAMES[n]
+                        ));
+                        break;
+                    }
+                }
+            }
+        });
     }
 }
 
@@ -201,6 +301,29 @@ impl Engine for Lockstep {
             }
         });
         x.copy_from_slice(&results[0]);
+        if let Some(mut p) = perturb_draw() {
+            let log2 = match p.below(4) {
+                0 => 0,
+                1 => 65535,
+                2 => 65534,
+                _ => p.below(65536) as GfElement,
+            };
+            let mut res2: Vec<Vec<[u8; 64]>> = Vec::with_capacity(5);
+            for engine in self.engines() {
+                let mut copy = snapshot.clone();
+                engine.mul(&mut copy, log2);
+                res2.push(copy);
+            }
+            LOG.with(|l| {
+                let mut l = l.borrow_mut();
+                l.perturbed_calls += 1;
+                for (n, res) in res2.iter().enumerate().skip(1) {
+                    if res != &res2[0] {
+                        l.violations.push(format!("mul(log_m={log2}, blocks={}) [perturbed shadow call]: {} differs from {}", x.len(), NAMES[n], NAMES[0]));
+                    }
+                }
+            });
+        }
     }
 
     fn eval_poly(erasures: &mut [GfElement; GF_ORDER], truncated_size: usize) {
